@@ -570,6 +570,21 @@ def te_class(vc, v, abstract=False):
     return c, p
 
 
+def cl_accepted(vc, value):
+    """parse_content_length(value) returns normally — natively the real function, in proof mode a named (deterministic)
+    predicate of the value; what it implies about the value is parse_content_length's own contract"""
+    if vc.mode == "native":
+        from mitmproxy.net.http import validate as VM
+        try:
+            VM.parse_content_length(value)
+            return True
+        except ValueError:
+            return False
+    import z3
+    from pyvc import lib
+    return SBool(lib.uf("CLacc", z3.StringSort(), z3.BoolSort())(lift(value).t))
+
+
 def summarise_value_parsers(vc):
     """parse_content_length / parse_transfer_encoding are replaced by their own contracts (scenarios parse_content_length,
     parse_transfer_encoding): the caller sees exactly what those contracts promise, nothing more."""
@@ -584,9 +599,9 @@ def summarise_value_parsers(vc):
         strict = in_re(vc, value, CL_STRICT_S if as_str else CL_STRICT_B)
         rfc = in_re(vc, value, CL_RFC_S if as_str else CL_RFC_B)
         counter[0] += 1
-        acc = vc.fresh_bool(f"cl_accepted{counter[0]}")
+        acc = cl_accepted(vc, value)
         vc.assume(Implies(strict, acc))
-        vc.assume(Implies(acc, Or(rfc, endswith(value, "\n" if as_str else b"\n"))))
+        vc.assume(Implies(acc, And(is_ascii(vc, value), Or(rfc, endswith(value, "\n" if as_str else b"\n")))))
         if vc.branch(acc):
             n = vc.fresh_int(f"cl_value{counter[0]}")
             vc.assume(Implies(rfc, n == str_to_int(vc, value)))
@@ -664,6 +679,7 @@ def s_validate(vc):
         vc.ensure("ok.at_most_one_cl", n_cl <= 1)
         vc.ensure("ok.not_both", Not(And(n_te >= 1, n_cl >= 1)))
         vc.ensure_kf("ok.cl_is_digits", Implies(n_cl >= 1, in_re(vc, cl_val, CL_RFC_B)), "KF-C01-5", nl)
+        vc.ensure("ok.cl_accepted_by_parse_content_length", Implies(n_cl >= 1, cl_accepted(vc, cl_val)))
         vc.ensure("ok.te_is_known_coding_list", Implies(n_te >= 1, Or(te_chunked, te_plain)))
         vc.ensure("ok.te_only_in_http11", Implies(n_te >= 1, http11))
         if kind == "request":
@@ -715,7 +731,7 @@ def spec_valid_fields(vc, is_request, names, vals, http11, status):
     te_c, te_p = te_class(vc, te_val, abstract=True) if n else (False, False)
     no_body_status = False if is_request else Or(And(status >= 100, status <= 199), status == 204)
     valid = And(n_te <= 1, n_cl <= 1, Not(And(n_te >= 1, n_cl >= 1)),
-                Implies(n_cl >= 1, in_re(vc, cl_val, CL_RFC_B)),
+                Implies(n_cl >= 1, cl_accepted(vc, cl_val)),
                 Implies(n_te >= 1, And(http11, te_c if is_request else And(Or(te_c, te_p), Not(no_body_status)))))
     return valid, n_te, n_cl, te_val, cl_val, te_c, te_p
 
@@ -743,7 +759,7 @@ EBS = RD + "expected_http_body_size"
 @scenario("expected_http_body_size", functions=[EBS])
 def s_ebs(vc):
     kind = vc.case("kind", ["request", "response"])
-    n = vc.case("n", list(range(int(_os.environ.get("C01_EBS_N", "2")) + 1)))
+    n = vc.case("n", list(range(int(_os.environ.get("C01_EBS_N", "2" if _os.environ.get("PYVC_TIER") == "thorough" else "1")) + 1)))
     names = [vc.sym_bytes(f"n{i}") for i in range(n)]
     vals = [vc.sym_bytes(f"v{i}") for i in range(n)]
     http11 = vc.sym_bool("http11")
@@ -756,6 +772,11 @@ def s_ebs(vc):
         c, p = te_class(vc, v, abstract=True)
         vc.assume(Implies(Or(c, p), And(is_ascii(vc, v), len_(v) > 0)))   # the named pattern sets contain non-empty ASCII strings only
     summarise_value_parsers(vc)
+    for lit in ("HEAD", "CONNECT"):
+        vc.assume(upper_(vc, lit) == lit)   # str.upper() of an upper-case literal (the engine's upper() is uninterpreted on symbolic text)
+    vc.assume(upper_(vc, upper_(vc, method_str(vc, method))) == upper_(vc, method_str(vc, method)))   # str.upper() is idempotent
+    for v in vals:
+        vc.assume(Implies(cl_accepted(vc, v), is_ascii(vc, v)))   # parse_content_length's contract: accepted values are ASCII
     from props.httpstream import mk_request
     if is_request:
         req = mk_message(vc, "request", names, vals, version, method=method)
@@ -787,6 +808,8 @@ def s_ebs(vc):
             vc.ensure_kf("rule3.response_until_close", And(not isnone(r), r == -1) if not isnone(r) else False, "KF-C01-6", lenient_method)
         return
     if vc.branch(n_cl >= 1):
+        if not vc.branch(in_re(vc, cl_val, CL_RFC_B)):
+            return  # accepted non-digit values: the trailing-newline class of KF-C01-5 (parse_content_length's contract)
         vc.ensure_kf("rule5.content_length", And(not isnone(r), r == str_to_int(vc, cl_val)) if not isnone(r) else False, "KF-C01-6", lenient_method)
         return
     if is_request:
